@@ -23,7 +23,8 @@ from .. import enginecheck as ec
 class Coop(object):
     """Cooperative scheduler: a thread runs only between being granted a turn and its next checkpoint."""
 
-    def __init__(self):
+    def __init__(self, patience=1):
+        self.patience = patience        # multiplies the waits: a schedule that stalled is run again with long waits before it is reported
         self.cv = threading.Condition()
         self.turn = None
         self.waiting = {1: False, 2: False}
@@ -54,21 +55,21 @@ class Coop(object):
 
     def wait_parked(self, tid):
         with self.cv:
-            if not self.cv.wait_for(lambda: self.parked(tid), timeout=5):
+            if not self.cv.wait_for(lambda: self.parked(tid), timeout=5 * self.patience):
                 self.stalled = True
 
     def grant(self, tid):
         """Let thread `tid` perform exactly one event. Returns False if it has already finished. A thread that does not come
         back to a checkpoint of its own (e.g. because it is performing ANOTHER query's event) stalls the schedule."""
         with self.cv:
-            if not self.cv.wait_for(lambda: self.parked(tid), timeout=3):
+            if not self.cv.wait_for(lambda: self.parked(tid), timeout=3 * self.patience):
                 self.stalled = True
                 return False
             if self.done[tid]:
                 return False
             self.turn = tid
             self.cv.notify_all()
-            if not self.cv.wait_for(lambda: self.turn is None, timeout=3) or not self.cv.wait_for(lambda: self.parked(tid), timeout=3):
+            if not self.cv.wait_for(lambda: self.turn is None, timeout=3 * self.patience) or not self.cv.wait_for(lambda: self.parked(tid), timeout=3 * self.patience):
                 self.stalled = True
             return True
 
@@ -78,10 +79,10 @@ class Coop(object):
             self.cv.notify_all()
 
 
-def run_pair(mods, c1, c2, sched):
+def run_pair(mods, c1, c2, sched, patience=1):
     """Run the two cases in two threads, interleaved event by event as `sched` says."""
     rbql, eng, rcsv, cu = mods
-    coop = Coop()
+    coop = Coop(patience)
     results = {}
 
     def worker(tid, case):
@@ -153,6 +154,9 @@ def _replay_schedules(items):
             out.append((tid, [], 0, 0))
             continue
         results, drift, trace = run_pair(mods, c1, c2, sched)
+        if results.get('stalled'):
+            # a loaded machine must not be taken for a blocked thread: once more with waits of 20 s
+            results, drift, trace = run_pair(mods, c1, c2, sched, patience=7)
         if results.get('stalled'):
             stalls += 1
         sigs = []
